@@ -110,7 +110,7 @@ def main(argv=None) -> int:
 
     violations = 0
     seen = set()
-    rdir = os.path.join(VERIF, "replays", prop)
+    rdir = os.path.join(os.environ.get("VERIF_REPLAY_DIR") or os.path.join(VERIF, "replays"), prop)
     for d in sorted(details, key=lambda d: (d.get("size", 0), d["key"])):
         if d["key"] in key2f or d["key"] in seen:
             continue
@@ -153,8 +153,9 @@ def main(argv=None) -> int:
         "wall_s": round(time.time() - t0, 3),
         "violations": n_unknown,
     }
-    os.makedirs(os.path.join(VERIF, "evidence"), exist_ok=True)
-    json.dump(ev, open(os.path.join(VERIF, "evidence", f"{prop}.json"), "w"), indent=1, default=str)
+    evdir = os.environ.get("VERIF_EVIDENCE_DIR") or os.path.join(VERIF, "evidence")   # override only used by tools/seed_eval.py
+    os.makedirs(evdir, exist_ok=True)
+    json.dump(ev, open(os.path.join(evdir, f"{prop}.json"), "w"), indent=1, default=str)
     print(f"{prop} tier={args.tier} evaluations={evaluations} nontrivial={nontrivial} "
           f"failing_inputs={coverage['failing_inputs_total']} unlisted={n_unknown} wall={ev['wall_s']}s")
     return 1 if n_unknown else 0
